@@ -175,10 +175,15 @@ func (w *Wallet) AddMint(mint string) (*walletMint, error) {
 		return nil, err
 	}
 
+	// keysets come from the mint with counter 0. If this wallet already knows a keyset
+	// (mint added before, or under another spelling of its url) keep its counter.
+	// Otherwise outputs that the mint already signed would be derived again.
+	activeKeyset.Counter = w.db.GetKeysetCounter(activeKeyset.Id)
 	if err := w.db.SaveKeyset(activeKeyset); err != nil {
 		return nil, err
 	}
 	for i, keyset := range inactiveKeysets {
+		keyset.Counter = w.db.GetKeysetCounter(keyset.Id)
 		if err := w.db.SaveKeyset(&keyset); err != nil {
 			return nil, err
 		}
